@@ -18,3 +18,5 @@ INVARIANT CutoffSlack
 INVARIANT SupportIsUpperTriangular
 INVARIANT TransparentIsZero
 INVARIANT MonotoneUpToCutoff
+INVARIANT ProductRule
+INVARIANT OrderIndependentUpToCutoff
